@@ -307,4 +307,44 @@ theorem label_format (showLoss : Rat → List Char) (f : Frag) (num : Number) (h
 example : getLabel (fun _ => ['-', '1', '8']) Ion.Y 2 (.int 3) (-18) 1 =
     ['+', '+', 'y', '3', '(', '-', '1', '8', ')', '*'] := by decide
 
+/-! ## 7. each ion carries the modifications that sit on its residues and termini -/
+
+/-- `slice(start, stop)`: the residues `[start, stop)`; the N-terminal mods iff the piece starts at 0; the C-terminal
+mods iff it ends at the C-terminus; the residue mods of exactly the residues inside, re-indexed; global isotope labels
+(and whatever global fields are left) unchanged. -/
+theorem slice_carries (a : Annotation) (s e : Int) :
+    (slice a s e).seq = (a.seq.drop s.toNat).take (e.toNat - s.toNat) ∧
+    (slice a s e).nterm = (if s > 0 then none else a.nterm) ∧
+    (slice a s e).cterm = (if e < alen a then none else a.cterm) ∧
+    (slice a s e).isotope = a.isotope ∧ (slice a s e).static = a.static ∧
+    (∀ d, a.internal = some d → ∀ (k' : Int) (m : List Mod),
+      (∃ d', (slice a s e).internal = some d' ∧ (k', m) ∈ d') ↔ ∃ k, (k, m) ∈ d ∧ s ≤ k ∧ k < e ∧ k' = k - s) ∧
+    (a.internal = none → (slice a s e).internal = none) := by
+  refine ⟨slice_seq a s e, slice_nterm a s e, slice_cterm a s e, (slice_global a s e).1, (slice_global a s e).2.1,
+    fun d hd k' m => mem_slice_internal a s e d hd k' m, ?_⟩
+  intro h
+  rw [slice_internal, h]; rfl
+
+example : slice exPeptide 1 3 = { seq := ['E', 'P'] } ∧ (slice exPeptide 0 2).nterm = exPeptide.nterm := by decide
+
+/-- every returned `Fragment` has `sequence = parent.slice(start, end)` (serialised by C01's writer),
+`unmod_sequence` = the residues `[start, end)`, `internal = (start ≠ 0 and end ≠ len(parent))`, and the parent is the
+working copy of the peptide (labile mods removed, static rules written out). -/
+theorem fragment_carries (env : Env) (a : Annotation) (args : Args) (mc : Option (List Rat)) (out : List Out)
+    (hrt : args.returnType = .fragment) (h : fragment env a args mc = .ok out) (f : Frag) (hf : f ∈ fragsOf out) :
+    f.parent = env.condenseStatic (popLabile a) ∧
+    f.sequence = slice f.parent f.start f.stop ∧
+    f.unmodSequence = (f.parent.seq.drop f.start.toNat).take (f.stop.toNat - f.start.toNat) ∧
+    f.internal = (decide (f.start ≠ 0) && decide (f.stop ≠ alen f.parent)) ∧
+    f.monoisotopic = args.monoisotopic := by
+  have e := fragment_is_mkFrag env a args mc out hrt h f hf
+  have hp : f.parent = (mkJob env a args mc).annotation := by rw [e]; rfl
+  have hs : f.sequence = slice (mkJob env a args mc).annotation f.start f.stop := by rw [e]; rfl
+  have hu : f.unmodSequence = (slice (mkJob env a args mc).annotation f.start f.stop).seq := by rw [e]; rfl
+  have hi : f.internal = (decide (f.start ≠ 0) && decide (f.stop ≠ alen (mkJob env a args mc).annotation)) := by
+    rw [e]; rfl
+  have hm : f.monoisotopic = args.monoisotopic := by rw [e]; rfl
+  refine ⟨hp, by rw [hs, hp], ?_, by rw [hi, hp], hm⟩
+  rw [hu, slice_seq, hp]; rfl
+
 end C04
